@@ -134,6 +134,14 @@ func main() {
 		}
 		replayFile = os.Args[3]
 		tier = "quick"
+		// a counterexample is replayed in the tier that found it (the profile
+		// lists of the tiers differ)
+		if b, err := os.ReadFile(replayFile); err == nil {
+			var rf struct{ Tier string }
+			if json.Unmarshal(b, &rf) == nil && (rf.Tier == "quick" || rf.Tier == "thorough") {
+				tier = rf.Tier
+			}
+		}
 	}
 	if t := os.Getenv("VERIF_TIER"); t != "" && replayFile == "" && (t == "quick" || t == "thorough") {
 		tier = t
@@ -661,7 +669,10 @@ func main() {
 		for _, f := range newViol {
 			h := sha1.Sum([]byte(f.Viol.Sig + f.Profile))
 			path := filepath.Join(verifDir, "replays", fmt.Sprintf("%s-%x.json", id, h[:5]))
-			fb, _ := json.MarshalIndent(f, "", " ")
+			fb, _ := json.MarshalIndent(struct {
+				explore.Found
+				Tier string
+			}{f, tier}, "", " ")
 			os.WriteFile(path, fb, 0o644)
 			fmt.Printf("VIOLATION property=%s replay=%s\n", id, path)
 			fmt.Printf("  [%s] profile=%s seen=%d\n  %s\n", f.Viol.Sig, f.Profile, sigCounts[f.Viol.Sig], indent(f.Viol.Msg))
